@@ -27,6 +27,11 @@ class WireManagerBase(abc.ABC):
         for wire in self.wires:
             wire.grading.length = wire.length
 
+    def reset(self) -> None:
+        """Discards results of a previous grade() so that grading can be repeated"""
+        for wire in self.wires:
+            wire.grading = Grading(wire.length)
+
     @abc.abstractmethod
     def grade(self) -> None:
         """Convert data from user or neighbour to Grading objects on wires"""
@@ -102,6 +107,10 @@ class WireChopManager(WireManagerBase):
 
         super().update()
 
+    def reset(self) -> None:
+        super().reset()
+        self.grading = Grading(0)
+
     def grade(self) -> None:
         self.update()
 
@@ -129,6 +138,11 @@ class WirePropagateManager(WireManagerBase):
 
     def update(self):
         super().update()
+
+    def reset(self) -> None:
+        super().reset()
+        # chops were copied from neighbours
+        self.chops = []
 
     def grade(self):
         """Checks each wire whether their coincidents (wires from other blocks)
